@@ -5,6 +5,7 @@ import PhyVerif.Model.C15b
 import PhyVerif.Model.C15c
 import PhyVerif.Model.Fl
 import PhyVerif.Spec.C15
+import PhyVerif.Spec.C15b
 namespace PhyVerif.Driver
 open Lean PhyVerif PhyVerif.C15
 
@@ -65,13 +66,41 @@ def runC15 (op : String) (j : Json) : R Json := do
       else Json.null
     -- do the exact-rational conversions of Model/C15b give the same integers?  (tally only)
     let qSame := samplesOf rate times == samples && binsizeOf rate bin == bs && winsizeBins window bin == ws
-    pure (Json.mkObj [("model", jOpt j3 (correlogramsOfInts samples bs ws times sc ids rate sym)),
+    -- THE STATEMENT'S OWN COUNTS (`specSeconds`, evaluated as `stmtSeconds`: Props `stmtSeconds_eq`) with the CALLER's
+    -- bin, when the float product rate*bin is not a whole number of samples (the code then shortens the bin):
+    --   stmt_sec  : times and bin in seconds, the exact values of the doubles;
+    --   stmt_grid : the same statement in sample units (Props `specSeconds_units`): the float products time*rate
+    --               (whole numbers on the grid) and the float product rate*bin.
+    -- The two coincide when the products are exact; on decimal inputs they can differ at a bin boundary by rounding
+    -- noise, and the judge calls a disagreement with the statement only when BOTH differ from the real output.
+    -- half window: the code's `winsize_bins // 2` (the statement does not define it from the window size).
+    let onGrid := prods.all fun x => x.den == 1
+    let prodsExact := (times.map fun t => t * rate) == prods
+    let isClipped := clipped bin window
+    let qf := binProdFl rate bin
+    let binWhole := qf.den == 1
+    -- (also, for the tally only, when the times lie BETWEEN samples although every product time*rate is exact)
+    let wantStmt := hasFld j "stmt" && !isClipped && decide (1 ≤ bs) &&
+      ((onGrid && !binWhole) || (!onGrid && prodsExact))
+    let symOf := fun (c : List (List (List Nat))) => if sym then symmetrize c else c
+    let stmtSec := stmtSeconds times sc idl bin half
+    let stmtGrid := stmtSeconds prods sc idl qf half
+    let stmtFlds : List (String × Json) :=
+      if wantStmt then
+        [("stmt_sec", j3 (symOf stmtSec)), ("stmt_grid", j3 (symOf stmtGrid)),
+         ("stmt_eq_spec", if hasFld j "spec" then
+            Json.bool (stmtSec == specSeconds times sc idl bin half)
+          else Json.null)]
+      else []
+    pure (Json.mkObj ([("model", jOpt j3 (correlogramsOfInts samples bs ws times sc ids rate sym)),
                       ("samples", jInts samples), ("binsize", jInt bs), ("winsize", jInt ws),
                       ("ids", jNats idl), ("model_eq_spec", specEq),
                       ("fl_dom", Json.bool (decide (FlDom times rate bin window))),
-                      ("on_grid", Json.bool (prods.all fun x => x.den == 1)),
-                      ("clipped", Json.bool (clipped bin window)),
-                      ("q_same", Json.bool qSame)])
+                      ("on_grid", Json.bool onGrid),
+                      ("clipped", Json.bool isClipped),
+                      ("q_same", Json.bool qSame),
+                      ("bin_prod", jRat qf), ("bin_whole", Json.bool binWhole),
+                      ("prods_exact", Json.bool prodsExact)] ++ stmtFlds))
   | "fl" =>
     -- `Fl.roundDouble` on a list of exact rationals; `inrange` = the binary64 result is this one (`Fl.InRange`)
     let xs ← getRats j "xs"
